@@ -16,13 +16,14 @@ import (
 	"seehuhn.de/go/postscript/type1"
 
 	"verif/harness/ev"
+	"verif/harness/iofault"
 	"verif/harness/known"
 	"verif/harness/t1gen"
 	"verif/harness/t1ref"
 )
 
 var formats = []type1.FileFormat{type1.FormatPFA, type1.FormatPFB, type1.FormatBinary, type1.FormatNoEExec}
-var formatNames = map[type1.FileFormat]string{type1.FormatPFA: "PFA", type1.FormatPFB: "PFB", type1.FormatBinary: "binary", type1.FormatNoEExec: "noeexec"}
+var formatNames = map[type1.FileFormat]string{0: "default(nil options)", -1: "default(zero options)", type1.FormatPFA: "PFA", type1.FormatPFB: "PFB", type1.FormatBinary: "binary", type1.FormatNoEExec: "noeexec"}
 
 type c09case struct {
 	Font   *type1.Font      `json:"font"`
@@ -39,12 +40,34 @@ var tol = t1gen.Tol{
 	DateToSecond: true,
 }
 
+// optionsFor returns the options value for a format.  Format 0 stands for
+// "no options given" and format -1 for "options with the zero value": both
+// must behave like FormatPFA, the documented default.
+func optionsFor(format type1.FileFormat) *type1.WriterOptions {
+	switch format {
+	case 0:
+		return nil
+	case -1:
+		return &type1.WriterOptions{}
+	}
+	return &type1.WriterOptions{Format: format}
+}
+
 func roundTrip(f *type1.Font, format type1.FileFormat) string {
 	var buf bytes.Buffer
-	if err := f.Write(&buf, &type1.WriterOptions{Format: format}); err != nil {
-		return fmt.Sprintf("Write(%s) fails: %v", formatNames[format], err)
+	// the destination's and the source's concrete types are functions of the
+	// case (bytes.Buffer / a writer without extra methods / a small
+	// bufio.Writer; bytes.Reader / strings.Reader / bufio.Reader / ...)
+	wkind := iofault.WriterKinds[(len(f.Glyphs)+int(format)+4)%len(iofault.WriterKinds)]
+	w, done := iofault.NewWriter(wkind, &buf)
+	err := f.Write(w, optionsFor(format))
+	if err == nil {
+		err = done()
 	}
-	g, err := type1.Read(bytes.NewReader(buf.Bytes()))
+	if err != nil {
+		return fmt.Sprintf("Write(%s) to a %s fails: %v", formatNames[format], wkind, err)
+	}
+	g, err := type1.Read(iofault.NewReader(iofault.ReaderKinds[buf.Len()%len(iofault.ReaderKinds)], buf.Bytes()))
 	if err != nil {
 		return fmt.Sprintf("Read(Write(F, %s)) fails: %v", formatNames[format], err)
 	}
@@ -115,7 +138,7 @@ func findings(rec *ev.Rec) t1gen.FontOpts {
 func TestP1RoundTrip(t *testing.T) {
 	rec := ev.New("C09", "roundtrip")
 	defer rec.Finish(t)
-	rec.Rule("*type1.Font values: 1-13 glyphs incl. .notdef; names over regular characters (StandardEncoding names, random names incl. bytes >= 0x80, operator-like names); integer advance widths incl. int32 extremes, optional WidthY; 0-3 closed contours of lines/curves (h/v/general shapes) with integer coordinates (incl. charstring-format boundaries) or fractional ones (k/q, 2-3 decimals); even-length stem lists over int16 incl. extremes; encoding absent / standard / standard with unassigned codes / explicit incl. names of absent glyphs; FontInfo strings over all 256 bytes; finite floats incl. 1e21, 5e-324, MaxFloat64; font matrix variants; private values at and away from defaults; creation time zero or any second of years 1-9999 with sub-second part, in UTC, named or unnamed fixed zones incl. non-hour offsets. x 4 formats. Oracle: Read(Write(F)) deep-equals F after the property's own normalisation (encoding entries naming absent glyphs -> .notdef, time to the second; coordinates exact when all of a glyph's coordinates are integers, else 0.005). Non-trivial: >= 2 glyphs and >= 1 of {curve, fractional coordinate, stem, escaped string byte, non-standard encoding, non-default private value, non-UTC zone}; distinct by font content and format.")
+	rec.Rule("*type1.Font values: 1-13 glyphs incl. .notdef; names over regular characters (StandardEncoding names, random names incl. bytes >= 0x80, operator-like names); integer advance widths incl. int32 extremes, optional WidthY; 0-3 closed contours of lines/curves (h/v/general shapes) with integer coordinates (incl. charstring-format boundaries) or fractional ones (k/q, 2-3 decimals); even-length stem lists over int16 incl. extremes; encoding absent / standard / standard with unassigned codes / explicit incl. names of absent glyphs; FontInfo strings over all 256 bytes; finite floats incl. 1e21, 5e-324, MaxFloat64; font matrix variants; private values at and away from defaults; creation time zero or any second of years 1-9999 with sub-second part, in UTC, named or unnamed fixed zones incl. non-hour offsets. x 4 formats (a quarter of the fonts also with no options / zero-valued options, i.e. the default format). Oracle: Read(Write(F)) deep-equals F after the property's own normalisation (encoding entries naming absent glyphs -> .notdef, time to the second; coordinates exact when all of a glyph's coordinates are integers, else 0.005). Non-trivial: >= 2 glyphs and >= 1 of {curve, fractional coordinate, stem, escaped string byte, non-standard encoding, non-default private value, non-UTC zone}; distinct by font content and format.")
 	opts := findings(rec)
 	ev.SetupRapid(15000, 500000)
 	rapid.Check(t, func(t *rapid.T) {
@@ -134,7 +157,12 @@ func TestP1RoundTrip(t *testing.T) {
 			raw, _ := json.Marshal(f)
 			key = string(raw)
 		}
-		for _, format := range formats {
+		fs := formats
+		if rapid.IntRange(0, 3).Draw(t, "defaultoptions") == 0 {
+			// the default: no options at all, or options with the zero value
+			fs = append(append([]type1.FileFormat{}, formats...), type1.FileFormat(-rapid.IntRange(0, 1).Draw(t, "whichdefault")))
+		}
+		for _, format := range fs {
 			c := &c09case{Font: f, Format: format}
 			rec.Eval(1)
 			if nt {
